@@ -3,9 +3,9 @@
 # run the property's quick check on it in an isolated copy (tools/seedpar.py).
 PID=$1; NN=$2
 cd "$(dirname "$0")/.."
-out=$(SEEDTEST_FILE_ONLY=1 python3 tools/seedtest.py /tmp/w4_$NN $PID 2>&1 | grep "^SEED")
+out=$(SEEDTEST_FILE_ONLY=1 python3 tools/seedtest.py /tmp/w${RND:-4}_$NN $PID 2>&1 | grep "^SEED")
 echo "$out"
 id=$(echo "$out" | sed -n 's#.*-> /verif/seeded/\([^ ]*\) confirmed=True.*#\1#p')
 [ -z "$id" ] && { echo "NOT CONFIRMED $PID"; exit 1; }
-git -C /repo worktree remove --force /tmp/w4_$NN
+git -C /repo worktree remove --force /tmp/w${RND:-4}_$NN
 python3 tools/seedpar.py --scratch /tmp/vseed_$PID $id 2>&1 | tail -2
